@@ -53,6 +53,10 @@ PROFILES = {
          dict(probe_level=1, illegal=0.1, raise_=0.6, fold=0.08)),
         ('short-all-ins', 120, 1200, dict(stacks='short', variants=['NT', 'PO', 'NS', 'N2L1D']),
          dict(probe_level=1, illegal=0.1, raise_=0.5, allin=0.3, fold=0.05)),
+        # the same rules on Decimal- and float-valued chips: minimum raise, pot-limit maximum, call amounts computed in that type; the
+        # questions step in sixteenths of a chip around every bound
+        ('decimal-chips', 30, 400, dict(chips='decimal', rake_p=0.0), dict(probe_level=1, illegal=0.15, raise_=0.45, fold=0.1)),
+        ('float-chips', 30, 400, dict(chips='float', rake_p=0.0), dict(probe_level=1, illegal=0.15, raise_=0.45, fold=0.1)),
     ],
     'C06': [
         ('all-variants', 160, 1600, dict(), dict(probe_level=0, illegal=0.05, explicit_cards=0.35)),
